@@ -11,6 +11,10 @@
 EXTENDS Integers, Sequences, FiniteSets, TLC
 
 CONSTANTS Tags,        \* explicit integer tags a user may give, e.g. 1..3
+          Names,       \* explicit tags that are NOT integers (strings such as
+                       \*   "first"), coded as numbers >= NameBase; they take no
+                       \*   part in the choice of automatic tags
+          NameBase,
           MaxSaves,
           AutoRule     \* "max+1": one more than the largest integer tag in
                        \*   the directory (the code after the repair);
@@ -32,8 +36,10 @@ Init == entries = << >> /\ nobj = 0 /\ expected = [t \in {} |-> 0]
 Keys == {entries[i][1] : i \in DOMAIN entries}
 MaxOf(S) == CHOOSE x \in S : \A y \in S : y <= x
 
+IntKeys == {k \in Keys : k < NameBase}
+
 AutoTag ==
-  CASE AutoRule = "max+1"  -> IF Keys = {} THEN 1 ELSE MaxOf(Keys) + 1
+  CASE AutoRule = "max+1"  -> IF IntKeys = {} THEN 1 ELSE MaxOf(IntKeys) + 1
     [] AutoRule = "last+1" -> IF entries = << >> THEN 1
                               ELSE entries[Len(entries)][1] + 1
     [] AutoRule = "len+1"  -> Len(entries) + 1
@@ -57,7 +63,7 @@ Save(t) ==
          /\ expected' = [x \in DOMAIN expected \cup {tag} |->
                            IF x = tag THEN o ELSE expected[x]]
 
-Next == \E t \in Tags \cup {0} : Save(t)
+Next == \E t \in Tags \cup Names \cup {0} : Save(t)
 Spec == Init /\ [][Next]_vars
 
 \* loaddir: tag -> object
